@@ -92,13 +92,23 @@ def der_integer(value):
     return der(0x02, value.to_bytes(size, 'big', signed=True))
 
 
-def ldap_start_tls_request(message_id=1):
-    operation = der(0x77, der(0x80, b'1.3.6.1.4.1.1466.20037'))          # [APPLICATION 23] constructed, requestName [0]
-    return der(0x30, der_integer(message_id) + operation)
+def ber(tag, content, length_octets=None):
+    """Definite-length BER: `length_octets` forces the long form with that many length octets (X.690 8.1.3.5 allows more
+    octets than necessary; Active Directory sends 30 84 00 00 00 xx). RFC 4511 5.1 keeps this freedom for LDAP."""
+    if length_octets is None:
+        return der(tag, content)
+    length_octets = max(length_octets, (len(content).bit_length() + 7) // 8)
+    return be(tag, 1) + be(0x80 | length_octets, 1) + be(len(content), length_octets) + content
 
 
-def ldap_start_tls_response(result_code, message_id=1, matched_dn=b'', diagnostic=b'', response_name=None):
+def ldap_start_tls_request(message_id=1, outer_length_octets=None, inner_length_octets=None):
+    operation = ber(0x77, der(0x80, b'1.3.6.1.4.1.1466.20037'), inner_length_octets)   # [APPLICATION 23], requestName [0]
+    return ber(0x30, der_integer(message_id) + operation, outer_length_octets)
+
+
+def ldap_start_tls_response(result_code, message_id=1, matched_dn=b'', diagnostic=b'', response_name=None,  # pylint: disable=too-many-arguments
+                            outer_length_octets=None, inner_length_octets=None):
     content = der(0x0a, be(result_code, 1)) + der(0x04, matched_dn) + der(0x04, diagnostic)
     if response_name is not None:
         content += der(0x8a, response_name)                                # responseName [10]
-    return der(0x30, der_integer(message_id) + der(0x78, content))       # [APPLICATION 24] constructed
+    return ber(0x30, der_integer(message_id) + ber(0x78, content, inner_length_octets), outer_length_octets)   # [APPLICATION 24]
